@@ -298,3 +298,121 @@ def float64_ok(j):
     if isinstance(j, Obj):
         return all(float64_ok(v) for _, v in j.kvs)
     return True
+
+
+# ---------------------------------------------------------------------------------------------
+# descriptors read back; Go values that are not what encoding/json decodes
+
+# declared struct types of harness/goval.go: (JSON name, Go type) in declaration order — NOT alphabetical, on purpose
+STRUCTS = {
+    "S:gotype": [("package", "string"), ("name", "string"), ("kind", "int")],
+    "S:order": [("z", "int"), ("a", "string"), ("m", "[]string"), ("inner", "*S:gotype")],
+}
+
+
+def denote(d):
+    """The JSON value a descriptor marshals to with encoding/json: maps with keys ascending, structs in field order, a nil pointer
+    / interface as null, json.RawMessage and *Schema as the text they were given."""
+    from .wire import parse_ordered
+    if d is None:
+        return None
+    t, v = d["t"], d.get("v")
+    if t in ("rawjson", "schema"):
+        return parse_ordered(v)
+    if t in STRUCTS:
+        if v is None:
+            v = [None] * len(STRUCTS[t])
+        out = []
+        for (name, ft), x in zip(STRUCTS[t], v):
+            if x is None:
+                x = {"string": "", "int": Num("0")}.get(ft)      # zero value of the field ([]string, pointers: null)
+            else:
+                x = denote(x)
+            out.append((name, x))
+        return Obj(out)
+    if t.startswith("*"):
+        return None if v is None else denote(v)
+    if t == "any":
+        return denote(v)
+    if t.startswith("map["):
+        if v is None:
+            return None
+        return Obj(sorted(((k, denote(x)) for k, x in v), key=lambda kv: kv[0].encode("utf-8")))
+    if t.startswith("["):
+        if v is None:
+            return None
+        return [denote(x) for x in v]
+    if t == "bool" or t in ("string", "mystring"):
+        return v
+    if t == "jnum" or t in INT_RANGES or t in FLOAT_BITS:
+        return Num("0" if v == "-0" else v)
+    raise TypeError(t)
+
+
+def gen_govalue(rng, depth=1):
+    """A Go value that is NOT what json decoding produces (for map[string]any fields of a Schema built in Go): a declared struct or a
+    pointer to one, a json.RawMessage, a *Schema, a typed map / slice, a json.Number, a sized integer, a pointer."""
+    r = rng.random()
+    name = lambda: rng.choice(["T", "pkg", "a", "é", ""])
+    gotype = lambda: {"t": "S:gotype", "v": [{"t": "string", "v": name()}, {"t": "string", "v": name()}, {"t": "int", "v": str(rng.randint(0, 30))}]}
+    if r < 0.2:
+        g = gotype()
+        return g if rng.random() < 0.5 else {"t": "*S:gotype", "v": g}
+    if r < 0.3:
+        inner = None if rng.random() < 0.4 else {"t": "*S:gotype", "v": gotype()}
+        return {"t": "S:order", "v": [{"t": "int", "v": str(rng.randint(-3, 3))}, {"t": "string", "v": name()},
+                                       None if rng.random() < 0.3 else {"t": "[]string", "v": [{"t": "string", "v": name()} for _ in range(rng.randint(0, 2))]},
+                                       inner]}
+    if r < 0.45:
+        return {"t": "rawjson", "v": rng.choice(['{"b":1,"a":2}', '{"z":{"y":1,"x":[2]},"a":null}', '[{"k":1,"j":"s"}]', '1.50', '"s"', 'null',
+                                                 '{"a":1,"b":2}', '{"n":1e2,"m":0.10}', '[]', '{}'])}
+    if r < 0.6:
+        # the text is what Marshal writes for that schema: "type" first, the other keywords in declaration order
+        return {"t": "schema", "v": rng.choice(['{"type":"string"}', '{"type":"object","title":"t"}', '{"title":"t","minimum":1}',
+                                                'true', '{"type":"array","items":{"type":"number"},"minItems":1}',
+                                                '{"type":["string","null"],"description":"d"}', '{"not":{"const":1}}'])}
+    if r < 0.7:
+        ks = rng.sample(["b", "a", "é", "Z", "1", "10", "2"], rng.randint(0, 3))
+        et = rng.choice(["int", "jnum", "string", "[]string", "uint8"])
+        return {"t": "map[%s]%s" % (rng.choice(["string", "mystring"]), et), "v": [[k, _scalar_of(rng, et)] for k in ks]}
+    if r < 0.8:
+        et = rng.choice(["string", "int", "jnum", "float32", "mystring", "*int"])
+        return {"t": "[]" + et, "v": [_scalar_of(rng, et) for _ in range(rng.randint(0, 3))]}
+    if r < 0.9:
+        return {"t": "jnum", "v": rng.choice(["1", "1.0", "1.50", "1e2", "-0", "0.10", "123456789012345678901234567890", "2E+1"])}
+    if depth > 0 and r < 0.95:
+        return {"t": "map[string]any", "v": [[k, gen_govalue(rng, depth - 1)] for k in rng.sample(["q", "p", "r"], rng.randint(1, 2))]}
+    return _scalar_of(rng, rng.choice(["int8", "uint64", "*int", "float32", "myint", "mystring"]))
+
+
+def _scalar_of(rng, t):
+    if t.startswith("*"):
+        return {"t": t, "v": None if rng.random() < 0.3 else _scalar_of(rng, t[1:])}
+    if t == "[]string":
+        return {"t": t, "v": [_scalar_of(rng, "string") for _ in range(rng.randint(0, 2))]}
+    if t in ("string", "mystring"):
+        return {"t": t, "v": rng.choice(["", "a", "é", "x<y"])}
+    if t == "jnum":
+        return {"t": t, "v": rng.choice(["1", "1.0", "2.50", "1e1", "0"])}
+    if t in FLOAT_BITS:
+        return {"t": t, "v": rng.choice(["0", "1", "0.5", "-2.25", "100"])}
+    lo, hi = INT_RANGES[t]
+    return {"t": t, "v": str(rng.choice([0, 1, 7, hi, lo]))}
+
+
+def represent_keyed(rng, j, key_types=("string", "mystring", "jnum"), elem_types=("any", "any", "int", "float64", "jnum", "string", "bool", "map[string]any")):
+    """A representation of j in which every OBJECT is a Go map with a key type drawn from key_types (json.Number has kind String:
+    `map[json.Number]T` is an object for the package and for encoding/json alike) and a typed element where the values allow it."""
+    if isinstance(j, Obj):
+        kt = rng.choice(key_types)
+        for _ in range(2):
+            et = rng.choice(elem_types)
+            if et == "any":
+                break
+            d = represent_as(rng, j, "map[%s]%s" % (kt, et))
+            if d is not None:
+                return d
+        return {"t": "map[%s]any" % kt, "v": [[k, represent_keyed(rng, v, key_types, elem_types)] for k, v in j.kvs]}
+    if isinstance(j, list):
+        return {"t": "[]any", "v": [represent_keyed(rng, x, key_types, elem_types) for x in j]}
+    return represent(rng, j, wrap=False)
